@@ -64,7 +64,7 @@ func (c16) Gen(tier string, seed int64, emit func([]Ev)) {
 	r := rand.New(rand.NewSource(seed))
 	maxLen, nrand := 6, 1500
 	if tier == "thorough" {
-		maxLen, nrand = 8, 40000
+		maxLen, nrand = 9, 200000
 	}
 	// bounded-exhaustive: every stream of length <= maxLen over the alphabet
 	var rec func(prefix []byte)
